@@ -1,5 +1,8 @@
 import Rare.Base.Proto
+import Rare.Base.F64Str
 import Rare.Model.C03
+import Rare.Model.C03Reduce
+import Rare.Drv.C07Acc
 /-!
 Line-protocol driver for C03 (see `harness/corr/c03.go` and `extra/C03.py`).
 
@@ -10,6 +13,9 @@ Line-protocol driver for C03 (see `harness/corr/c03.go` and `extra/C03.py`).
   agg subkey <hist>                   … of bars
   parse <text>                        `parseCsv`
   exit <readErrors> <aggNil> <parseErrors> <matched>
+  reduce <flags> <initial> <sort> <groups> <accums> <nomatch> <elements>
+                                      `rare reduce` end to end (`Rare.C03.reduceRun`): set-up, sampling, final render
+                                      (as text with runs of spaces squashed), `--csv` text, exit status
 
 rows: records joined by `|`, a record = hex fields joined by `;` (`.` = no field), `_` = no record.
 -/
@@ -33,7 +39,90 @@ empty lines are skipped and CR LF inside a quoted field arrives as LF. -/
 def goReaderView (rows : List (List Bytes)) : List (List Bytes) :=
   (rows.filter fun r => r ≠ [[]]).map fun r => r.map dropCrLf
 
+/-! ### `reduce` -/
+
+/-- `sorting.ByContextual()` on keys none of which is a weekday or month name: the closure falls back to
+`ByNameSmart` at its first comparison (`strconv.ParseFloat` = `F64.parseFloat`, values compared through `F64.key`). -/
+def parseOrd (k : Bytes) : C13.PF :=
+  match F64.parseFloat k with
+  | none => .err
+  | some x => if x.isNaN then .nan else .val x.key
+
+def smartLess : Bytes → Bytes → Bool := C13.byNameSmart parseOrd
+
+/-- every run of spaces becomes one space, leading and trailing spaces go -/
+def spaceWords : Bytes → Bytes → List Bytes
+  | [], cur => if cur = [] then [] else [cur]
+  | b :: r, cur => if b = 32 then (if cur = [] then spaceWords r [] else cur :: spaceWords r []) else spaceWords r (cur ++ [b])
+
+def squash (line : Bytes) : Bytes :=
+  match spaceWords line [] with
+  | [] => []
+  | w :: r => r.foldl (fun acc x => acc ++ 32 :: x) w
+
+/-- `TableWriter` with `--rows 20 --cols 10`: rows beyond the 20th are dropped, cells beyond the 10th; every cell
+is followed by padding and one space. -/
+def tableText (t : ReduceTable) : List Bytes :=
+  let line (cells : List Bytes) : Bytes := (cells.take 10).flatMap fun c => c ++ [32]
+  ((t.header :: t.rows).take 20).map line ++ [t.footer]
+
+def outText : ReduceOut → List Bytes
+  | .table t => tableText t
+  | .simple lines => lines
+
+def joinLines : List Bytes → Bytes
+  | [] => []
+  | [l] => l
+  | l :: r => l ++ 10 :: joinLines r
+
+inductive TplRes
+  | ok
+  | panic
+  | unmodelled (n : String)
+
+def checkTemplates (ts : List Bytes) : TplRes :=
+  ts.foldl (fun acc t =>
+    match acc with
+    | .ok =>
+      match Rare.Drv.C07Acc.compileT true t with
+      | .panic => .panic
+      | .unmodelled n => .unmodelled n
+      | _ => .ok
+    | r => r) .ok
+
+def compileOpt (t : Bytes) : Option Rare.Expr.Stage :=
+  match Rare.Drv.C07Acc.compileT true t with
+  | .stage st => some st
+  | _ => none
+
+def runErr (m : String) : String :=
+  if m.startsWith "unmodelled:" then "unmodelled " ++ (m.drop 11).toString else "panic"
+
+def reduceOp (flags : Nat) (initial : Bytes) (sort : Option Bytes) (groups accums : List Bytes) (nMiss : Nat)
+    (elements : List Bytes) : String :=
+  let a : ReduceArgs :=
+    { accum := accums, group := groups, initial := if flags / 4 % 2 = 1 then initial else [48],
+      table := flags % 2 = 1, sort := sort.getD [], sortReverse := flags / 2 % 2 = 1 }
+  let templates := groups.map (fun g => (parseKeyValue g).2) ++ accums.map (fun e => (parseKeyValInitial e a.initial).2.2) ++
+    (if a.sort ≠ [] then [a.sort] else [])
+  match checkTemplates templates with
+  | .panic => "panic"
+  | .unmodelled n => "unmodelled " ++ n
+  | .ok =>
+    match reduceSetup compileOpt a with
+    | .error c => s!"fatal {c}"
+    | .ok (s0, maxKeylen) =>
+      let cnt : Counters := ⟨elements.length, elements.length + nMiss, 0⟩
+      match reduceRun a maxKeylen s0 smartLess elements (fun s => akeys s.data) cnt 0 with
+      | .error m => runErr m
+      | .ok r => s!"ok {r.exit} {Hex.enc r.csv} {Hex.enc (joinLines ((outText r.out).map squash))}"
+
 def handle : List String → String
+  | ["reduce", fl, ini, srt, gs, acs, nm, els] =>
+    match nat? fl, Hex.dec ini, (if srt = "-" then some none else (Hex.dec srt).map some), decHexList gs, decHexList acs,
+        nat? nm, decHexList els with
+    | some fl, some ini, some srt, some gs, some acs, some nm, some els => reduceOp fl ini srt gs acs nm els
+    | _, _, _, _, _, _, _ => "bad-args"
   | ["csv", rows] =>
     match decRows rows with
     | some rs =>
